@@ -29,7 +29,9 @@ RULE = (
 )
 ASSUMPTIONS = [
     "the recording device object offers what the facade needs (opcodes, devicetype, execute, close)",
-    "responses are those of C04 (pbt/respgen.py); when a response does not fit the (default) buffer it is truncated and only the structural clauses are judged",
+    "responses are those of C04 (pbt/respgen.py); when a response does not fit the buffer (default buffer, or - one case in eight - a deliberately short allocation length) it is truncated: the structural clauses are judged, and the result must be what the command's own decoder makes of the truncated buffer (if that decoder raises, a facade call that returns normally is a violation)",
+    "one case in eight meets a device that raises (TypeError, OSError, ValueError, RuntimeError, KeyError, AttributeError, IndexError) after it has taken the command: exactly one hand-over, the exception reaches the caller",
+    "ALLOCATION LENGTH 0 (one case in twelve): nothing is decoded; the decoders raise on an empty buffer, which is not judged - the CDB that reached the device is",
     "'documented arguments' = names written as name=default / name = default in the ':param kwargs:' part of the facade docstring",
 ]
 
